@@ -97,6 +97,12 @@ func (sim *Simulation) executeQueue(phase info.BattlePhase, next stateFn) (state
 	}
 
 	for !sim.Queue.IsEmpty() {
+		// the battle may already be decided (by the turn's own action or by a modifier tick):
+		// stop here instead of executing inserts for a side that has nobody left
+		if next, err := sim.exitCheck(next); next == nil || err != nil {
+			return next, err
+		}
+
 		insert := sim.Queue.Pop()
 
 		// if source is dead, skip this insert (limbo okay for case of revives)
